@@ -9,11 +9,22 @@ Definition jv_resv (r : resv) : jv :=
   | RPair a b => JL [JZ a; JZ b]
   | RList l => jv_zs l
   end.
-Definition jv_proc (qp : Z * proc) : jv :=
+(* a process as the kernel shows it: nice, the I/O priority word ioprio_get reports, mask,
+   eligible CPUs, limits as rlim_t *)
+Definition jv_proc (k : kernel) (qp : Z * proc) : jv :=
   let (q, p) := qp in
-  JL [JZ q; JZ (p_nice p); JZ (p_ioprio p); jv_zs (p_mask p); jv_zs (p_elig p);
+  JL [JZ q; JZ (p_nice p); JZ (reported_ioprio k p); jv_zs (p_mask p); jv_zs (p_elig p);
       JL (map (fun sh => JL [JZ (fst sh); JZ (snd sh)]) (p_rlim p))].
-Definition jv_kernel (k : kernel) : jv := JL (map jv_proc (k_procs k)).
+Definition jv_kernel (k : kernel) : jv := JL (map (jv_proc k) (k_procs k)).
+(* outcome; psutil's own exceptions carry the pid *)
+Definition jv_out {A} (pid : Z) (f : A -> jv) (o : outcome A) : jv :=
+  match o with
+  | Exc e => match exc_pid pid e with
+             | Some q => JC "Exc" [JC (exn_name e) [JZ q]]
+             | None => jv_outcome f o
+             end
+  | _ => jv_outcome f o
+  end.
 
 Definition wf_allb (k : kernel) : bool :=
   wf_kernelb k && forallb (fun qp => wf_procb k (snd qp)) (k_procs k).
@@ -26,15 +37,21 @@ Definition run_case (k : kernel) (pid : Z) (r : req) : jv :=
   let '(o, k1) := run_req pid r k in
   let '(g, k2) := run_req pid (get_form r) k1 in
   JL [ JL (match kget pid k with Some p => [JL [JZ pid; JB (k_status p)]] | None => [] end);
-       jv_outcome jv_resv o; jv_outcome jv_resv g; jv_kernel k2;
-       jv_outcome jv_zs (get_eligible_cpus pid k);
+       jv_out pid jv_resv o; jv_out pid jv_resv g; jv_kernel k2;
+       jv_out pid jv_zs (get_eligible_cpus pid k);
        match spec_req pid r k with
        | Some (so, sk) =>
          match spec_get pid r sk with
-         | Some sg => JL [jv_outcome jv_resv so; jv_outcome jv_resv sg; jv_kernel sk]
+         | Some sg => JL [jv_out pid jv_resv so; jv_out pid jv_resv sg; jv_kernel sk]
          | None => jnone
          end
        | None => jnone
        end;
        jbool (wf_allb k) ].
 
+
+(* the status parser alone, on a file with arbitrary lines before and text after the line:
+   [the file; what the parser returns] *)
+Definition run_status (pre : list bytes) (post : bytes) (mask : list Z) (ncpu : Z) : jv :=
+  let data := k_status_gen (concat (map (fun l => l ++ [10]) pre)) post mask in
+  JL [ JB data; jv_outcome jv_zs (parse_status data ncpu) ].
